@@ -20,4 +20,6 @@ open XotModel.Props
 #print axioms C17_lex_shape
 #print axioms C17_string_boundaries
 #print axioms C17_string_inside
+#print axioms C17_lex_ordered
+#print axioms C17_string_ordered
 #print axioms C17_lex_canonical_positions
